@@ -744,3 +744,93 @@ pub fn catalogue(program_seed: u64, n_gen: usize) -> Catalogue {
     generate(&mut b, &mut rng, n_gen);
     b.cat
 }
+
+// ---------------------------------------------------------------------------------------------
+// the uniform catalogue
+// ---------------------------------------------------------------------------------------------
+
+/// Derive inputs in which EVERY field has the same type (`Probe<1>`), so that generated code
+/// which pairs the wrong key / state / default with a field still type-checks and the mistake
+/// shows at run time through the provenance tokens. In the ordinary catalogue such a mistake is
+/// (also) a compile error, which `./check` can only report as "engine does not build"; it then
+/// falls back to this catalogue.
+pub fn uniform(program_seed: u64, n: usize) -> Catalogue {
+    let mut b = Builder::new();
+    b.origin = "uniform";
+    let mut rng = Rng::new(crate::rng::mix(program_seed, 0x0F0F, 0));
+    let p = || Desc::Probe(1);
+    for i in 0..n {
+        let ra = gen_rename_all(&mut rng);
+        let tagged = rng.chance(1, 3);
+        let tag = rng.pick(&TAGS).to_string();
+        let mk_fields = |b: &mut Builder, rng: &mut Rng, ra: Option<RenameAll>| -> Vec<FieldDef> {
+            let n = if rng.chance(1, 10) { 21 + rng.below(6) } else { 2 + rng.below(6) };
+            let mut fields: Vec<FieldDef> = vec![];
+            let mut attempts = 0;
+            while fields.len() < n && attempts < 300 {
+                attempts += 1;
+                let ident = gen_ident(rng);
+                if fields.iter().any(|f| f.ident == ident) {
+                    continue;
+                }
+                let mut f = FieldDef::plain(&ident, p());
+                match rng.below(8) {
+                    0 => f.skip = true,
+                    1 => f.default = Dflt::Trait,
+                    2 => f.default = Dflt::Expr(b.tok()),
+                    3 => {
+                        f.skip = true;
+                        f.default = Dflt::Expr(b.tok());
+                    }
+                    4 => f.missing_fn = Some(b.fid()),
+                    _ => {}
+                }
+                if !f.skip {
+                    match rng.below(8) {
+                        0 => f.conv = Conv::From { src: p(), fn_id: b.fid(), by_ref: rng.chance(1, 2) },
+                        1 => f.conv = Conv::TryFrom { src: p(), fn_id: b.fid(), by_ref: rng.chance(1, 2) },
+                        _ => {}
+                    }
+                    if rng.chance(1, 10) {
+                        f.error_b = true;
+                    }
+                }
+                if rng.chance(1, 5) {
+                    f.map = Some(b.fid());
+                }
+                if rng.chance(1, 4) {
+                    f.rename = Some(format!("r{}_{}", fields.len(), ident.to_lowercase()));
+                }
+                if !f.skip {
+                    let k = f.key(ra);
+                    if fields.iter().any(|g| !g.skip && g.key(ra) == k) || k == tag {
+                        continue;
+                    }
+                }
+                fields.push(f);
+            }
+            fields
+        };
+        let name = format!("U{i}");
+        let d = if tagged {
+            let nv = 1 + rng.below(3);
+            let mut variants = vec![];
+            for v in 0..nv {
+                let vra = gen_rename_all(&mut rng);
+                let fields = if rng.chance(1, 5) { None } else { Some(mk_fields(&mut b, &mut rng, vra)) };
+                variants.push(VariantDef { ident: VARIANTS[v].to_string(), rename: None, rename_all: vra, fields });
+            }
+            let deny = gen_deny(&mut b, &mut rng);
+            let validate = gen_validate(&mut b, &mut rng);
+            b.add_type(&name, TypeKind::Tagged { tag: tag.clone(), rename_all: ra, deny, validate, variants })
+        } else {
+            let fields = mk_fields(&mut b, &mut rng, ra);
+            let deny = gen_deny(&mut b, &mut rng);
+            let validate = gen_validate(&mut b, &mut rng);
+            b.strukt(&name, ra, deny, validate, fields)
+        };
+        b.program(&format!("uniform_{i}"), d.clone());
+        b.program(&format!("uniform_{i}_vec"), Desc::Vec(bx(d)));
+    }
+    b.cat
+}
